@@ -95,6 +95,8 @@ def source(quick, variants, H, select0=True):
             for wti in range(0, 4):
                 if wti == 0 and not select0:
                     continue
+                if v in (4, 5) and wti > 1:
+                    continue            # variants 4/5 duplicate the first worker type: price path and that type's first-fit path
                 for suffix, shard in select_shards(wti, quick):
                     fn = f'select_{cloud}_{v}_{wti}{suffix}'
                     # un-sharded conditions: the twin demands that some request is placed; shards: that the end is reached
